@@ -350,6 +350,11 @@ type result struct {
 }
 
 func execOnce(prog *parser.Program, input string, native bool, cancelled bool) result {
+	return execOn(nil, prog, input, native, cancelled)
+}
+
+// execOn: as execOnce, but on the given Interpreter (reset first) when there is one
+func execOn(it *interp.Interpreter, prog *parser.Program, input string, native bool, cancelled bool) result {
 	var out bytes.Buffer
 	cfg := &interp.Config{Stdin: strings.NewReader(input), Output: &out, Error: &out, Argv0: "goawk", Environ: []string{"A", "1", "PATH", "/usr/bin:/bin"},
 		NoExec: !strings.Contains(prog.String(), "echo s") && !strings.Contains(prog.String(), "\"cat\""), NoFileWrites: true, NoFileReads: true}
@@ -366,6 +371,10 @@ func execOnce(prog *parser.Program, input string, native bool, cancelled bool) r
 		ctx, cancel := context.WithCancel(context.Background())
 		cancel()
 		status, err = p.ExecuteContext(ctx, cfg)
+	} else if it != nil {
+		it.ResetVars()
+		it.ResetRand()
+		status, err = it.Execute(cfg)
 	} else {
 		status, err = interp.ExecProgram(prog, cfg)
 	}
@@ -442,6 +451,44 @@ func runExec(x *h.Ctx, c ExecCase) string {
 			}
 		}
 	}
+	// the same with interpreters that are kept: every goroutine has its own, created once and used for every round
+	// (reset in between), so each execution after the first runs on an interpreter that has run before while the
+	// others are running
+	{
+		its := make([]*interp.Interpreter, c.Goroutines)
+		for g := range its {
+			it, err := interp.New(prog)
+			if err != nil {
+				return "harness: interp.New: " + err.Error()
+			}
+			its[g] = it
+		}
+		for round := 0; round < c.Rounds+1; round++ {
+			got := make([]result, c.Goroutines)
+			var wg sync.WaitGroup
+			start := make(chan struct{})
+			for g := 0; g < c.Goroutines; g++ {
+				wg.Add(1)
+				go func(g int) {
+					defer wg.Done()
+					<-start
+					got[g] = execOn(its[g], prog, string(c.Inputs[(g+round)%len(c.Inputs)]), c.Native, false)
+				}(g)
+			}
+			close(start)
+			wg.Wait()
+			for g := range got {
+				w := want[(g+round)%len(c.Inputs)]
+				if strings.Contains(got[g].out, "WaitDelay expired") || strings.Contains(w.out, "WaitDelay expired") {
+					x.Class("waitdelay-expired-not-compared")
+					continue
+				}
+				if got[g] != w {
+					return fmt.Sprintf("round %d: concurrent execution %d of %d, on its own interpreter that is reused from round to round, gave a result different from the sequential one\nsequential: %+v\nconcurrent: %+v\nsource:\n%s\ninput: %q", round, g, c.Goroutines, w, got[g], c.Src, c.Inputs[(g+round)%len(c.Inputs)])
+				}
+			}
+		}
+	}
 	if fp := fingerprint.Of(prog); fp != fp0 {
 		return fmt.Sprintf("executing the Program modified it (deep fingerprint changed after concurrent executions)\nsource:\n%s", c.Src)
 	}
@@ -460,7 +507,7 @@ func runExec(x *h.Ctx, c ExecCase) string {
 
 func init() {
 	h.Prop("parse_determinism", 6000, 100000, genDet, runDet)
-	h.Prop("immutable_shareable", 1200, 20000, genExec, runExec)
+	h.Prop("immutable_shareable", 1000, 14000, genExec, runExec)
 }
 
 // ---------------------------------------------------------------------------
